@@ -148,7 +148,8 @@ def restore (c : StoreCfg) (st : FileSt) (m : Node) : FileSt :=
         | _ => s) st
 
 /-- `Store.Push`. -/
-def push (c : StoreCfg) (recordEarly : Bool) (st : FileSt) (d : SDesc) (good : Bool) : FileSt × Except SErr Unit :=
+def push (c : StoreCfg) (recordEarly : Bool) (st : FileSt) (d : SDesc) (good : Bool) (forceCAS : Bool := false) :
+    FileSt × Except SErr Unit :=
   let r : FileSt × Except SErr Unit :=
     match d.name with
     | none =>
@@ -159,7 +160,8 @@ def push (c : StoreCfg) (recordEarly : Bool) (st : FileSt) (d : SDesc) (good : B
   match r with
   | (s, .error e) => (s, .error e)
   | (s, .ok ()) =>
-    let s1 := if c.isMan d.node then restore c s d.node else s
+    -- `ForceCAS` only switches duplicate restoration off; the graph is indexed either way
+    let s1 := if c.isMan d.node && !forceCAS then restore c s d.node else s
     ({ s1 with graph := s1.graph.index d.node (if c.isMan d.node then c.succ d.node else []) }, .ok ())
 
 /-- `Store.Tag`. -/
